@@ -22,8 +22,8 @@ type vfRawItem struct {
 	Flags       uint32 `json:"flags"`
 	HasLength   bool   `json:"hasLength"`
 	Length      uint32 `json:"length"`
-	NoPayload   bool   `json:"noPayload"`   // item.payload is absent
-	Kind        string `json:"kind"`        // binary, text, any, none (payload present but no data)
+	NoPayload   bool   `json:"noPayload"` // item.payload is absent
+	Kind        string `json:"kind"`      // binary, text, any, none (payload present but no data)
 	Data        []byte `json:"data"`
 	Compression int32  `json:"compression"` // 0..6
 }
